@@ -125,6 +125,17 @@ def case_adjoint(dim, kernel, dtype, dx, ncomp, mset, seed, shift="default", n_m
                 mom = (col * coord[:, None]).sum(0)
                 if np.abs(mom - P[k].astype(np.float64)).max() > 64 * eps * (1 + np.abs(P[k]).max()):
                     fails.append(Fail(f"{tag}:torque-conservation", "first moment of a spread unit force differs from the marker position (Peskin)", axis=k, component=c, dim=dim, set=mset, grid_origin=shift))
+    # amplitude alphabet: spreading and interpolation are linear, a force field scaled by 1e-20 / 1e12 must come out
+    # as the scaled matrix product (no absolute thresholds)
+    for amp in (1e-20, 1e12):
+        lagF = ((np.sin(np.arange(int(np.prod(lshape))) * 1.3 + 0.4) + 0.2) * amp).reshape(lshape).astype(real_t)
+        eul = np.zeros(fshape, dtype=real_t)
+        comm.spread(eul, lagF)
+        trans += 1
+        want = np.einsum("acbm,bm->ac", Smat, lagF.reshape(ncomp, n).astype(np.float64))
+        mag = np.einsum("acbm,bm->ac", np.abs(Smat), np.abs(lagF.reshape(ncomp, n).astype(np.float64)))
+        if not np.all(np.abs(eul.reshape(ncomp, ncell).astype(np.float64) - want) <= 16 * eps * mag + 1e-300):
+            fails.append(Fail(f"{tag}:amplitude", "spreading a force field scaled by a constant is not the scaled spreading of unit forces", amplitude=amp, dim=dim, set=mset))
     nz = int(np.count_nonzero(Smat))
     if nz == 0 and not fails:
         from harness.interp import HarnessError
